@@ -17,6 +17,7 @@ type PopOpts struct {
 	Depth     int  // nesting budget for recursive messages (Person.contacts)
 	ValidEnum bool // only declared enum numbers
 	NoNanos   bool
+	NoSpecial bool // no special-but-legal values (empty strings as list elements and map values, repeated list elements)
 }
 
 func DefaultPop() PopOpts {
@@ -43,7 +44,11 @@ func SetField(r *rand.Rand, m protoreflect.Message, fd protoreflect.FieldDescrip
 		n := 1 + r.Intn(o.MaxList)
 		for j := 0; j < n; j++ {
 			k := protoreflect.ValueOfInt32(int32(mapKeyFor(r, fd))).MapKey()
-			mp.Set(k, scalar(r, fd.MapValue(), o))
+			v := scalar(r, fd.MapValue(), o)
+			if !o.NoSpecial && fd.MapValue().Kind() == protoreflect.StringKind && r.Intn(12) == 0 {
+				v = protoreflect.ValueOfString("") // a key that is present with an empty value
+			}
+			mp.Set(k, v)
 		}
 	case fd.IsList():
 		l := m.Mutable(fd).List()
@@ -61,6 +66,13 @@ func SetField(r *rand.Rand, m protoreflect.Message, fd protoreflect.FieldDescrip
 				l.Append(e)
 			} else {
 				l.Append(scalar(r, fd, o))
+				if !o.NoSpecial && r.Intn(10) == 0 {
+					if fd.Kind() == protoreflect.StringKind && r.Intn(2) == 0 {
+						l.Append(protoreflect.ValueOfString("")) // an empty string as list element
+					} else {
+						l.Append(l.Get(r.Intn(l.Len()))) // a repeated element
+					}
+				}
 			}
 		}
 	case fd.Kind() == protoreflect.MessageKind:
